@@ -452,7 +452,9 @@ void MEDDLY::saturation_set_mtrel<EOP, ATYPE>::saturate_1(int L,
     //
     // Copy A to C, saturating children as we go
     //
-    unpacked_node* Au = unpacked_node::New(resF, SPARSE_ONLY);
+    // Full storage: a transparent child is "unreachable" for boolean and EV+
+    // sets, but it is the distance-0 terminal of an integer distance set.
+    unpacked_node* Au = unpacked_node::New(resF, FULL_ONLY);
     const int Alevel = resF->getNodeLevel(A);
     if (Alevel < L) {
         edge_value zero;
@@ -472,11 +474,11 @@ void MEDDLY::saturation_set_mtrel<EOP, ATYPE>::saturate_1(int L,
 #endif
 
     for (unsigned z = 0; z<Au->getSize(); z++) {
+        if (ATYPE::isUnreachable(edgeval(Au, z), Au->down(z))) continue;
         node_handle cdp;
         edge_value cdv;
         saturate_1(L-1, edgeval(Au, z), Au->down(z), cdv, cdp);
-        const unsigned i = Au->index(z);
-        Cu->setFull(i, cdv, cdp);
+        Cu->setFull(z, cdv, cdp);
     }
 
     unpacked_node::Recycle(Au);
@@ -548,7 +550,7 @@ void MEDDLY::saturation_set_mtrel<EOP, ATYPE>::
     unsigned i, j;
     node_handle d;
     for (i=0; i<Cu->getSize(); i++) {
-        if (Cu->down(i)) {
+        if (!ATYPE::isUnreachable(edgeval(Cu, i), Cu->down(i))) {
             explorers[L].wasUpdated(i);
         }
     }
